@@ -79,8 +79,11 @@ SPECS += [
     # a table created without a column list (LIKE / CLONE) that an ALTER of the same script then adds columns to - next to another LIKE table
     {"ddl": "CREATE TABLE lk1 LIKE s.src;\nALTER TABLE lk1 ADD loaded_at timestamp;\nALTER TABLE lk1 ADD CONSTRAINT fk_l FOREIGN KEY (loaded_at) REFERENCES p (k);\n", "ctor": {}},
     {"ddl": "CREATE TABLE lk2 (LIKE src2);\nCREATE TABLE lk3 CLONE s3;\nCREATE TABLE lk4 LIKE s.src4;\n", "ctor": {}},
+    # a character the lexer does not know (raises also when silent on the pinned tree): every object must fare as it does alone
+    {"ddl": "CREATE TABLE xr1 (x int, CONSTRAINT ck CHECK (x ^ 3 < 9));\n", "ctor": {"silent": True}},
+    {"ddl": "CREATE TABLE xr2 (id int PRIMARY KEY, flags int DEFAULT 0, CHECK (flags ^ 255 >= 0));\n", "ctor": {"silent": True}},
 ]
-TWINS = [(0, 12), (0, 13), (12, 13), (2, 14), (15, 16), (17, 18), (1, 19), (6, 20), (21, 22), (21, 1), (27, 28), (29, 30), (29, 4)]
+TWINS = [(0, 12), (0, 13), (12, 13), (2, 14), (15, 16), (17, 18), (1, 19), (6, 20), (21, 22), (21, 1), (27, 28), (29, 30), (29, 4), (31, 32)]
 
 
 def solo_references():
